@@ -74,6 +74,13 @@ def peers_for(tb, tier, rnd):
                   enc_c2s=['aes128-ctr'], mac_c2s=['hmac-sha2-256']))
     P.append(dict(kex=['curve25519-sha256', 'kex-strict-s-v00@openssh.com'], key=['ssh-ed25519'], enc=['aes256-gcm@openssh.com'], mac=['hmac-sha2-512'],
                   enc_c2s=['chacha20-poly1305@openssh.com', 'aes256-cbc'], mac_c2s=['hmac-sha1-etm@openssh.com']))
+    # a peer with the strict-kex marker (so the Terrapin-prone names are named in an advisory note instead of carrying the warning) whose
+    # CBC ciphers and ETM MACs are rated down for reasons of their own: those are still recommended for removal / change
+    P.append(dict(kex=['sntrup761x25519-sha512@openssh.com', 'curve25519-sha256', 'kex-strict-s-v00@openssh.com'], key=['ssh-ed25519'],
+                  enc=['chacha20-poly1305@openssh.com', 'aes128-cbc', '3des-cbc', 'aes256-ctr'],
+                  mac=['hmac-sha1-etm@openssh.com', 'umac-64-etm@openssh.com', 'hmac-sha2-256-etm@openssh.com', 'hmac-md5-etm@openssh.com'], all_sw=True))
+    P.append(dict(kex=['curve25519-sha256', 'kex-strict-s-v00@openssh.com'], key=['ssh-ed25519'], enc=['blowfish-cbc', 'aes128-ctr'], mac=['hmac-sha1-96-etm@openssh.com', 'hmac-sha2-512'],
+                  all_sw=True))
     # a spelling the database knows in two categories, advertised in only one of them (and in both): what is advertised as a
     # cipher says nothing about the MACs, and the other way round
     cats = ('kex', 'key', 'enc', 'mac')
